@@ -806,6 +806,37 @@ def check_stop(run: Run, prog: Program) -> None:
             fl.pin(rest_name)
             raises = [x for x in hreach if isinstance(cfg.nodes[x].ast, ast.Raise)]
             detail = "the non-cancellation remainder of the group is not re-raised"
+            # (b) the remainder is collected (stop() cancels and waits in a loop) and surfaced after the loop
+            collects = [(i, c) for i, c in fl.calls(
+                lambda c: isinstance(c.func, ast.Attribute) and c.func.attr in ("append", "extend") and len(c.args) == 1
+                and not c.keywords and isinstance(c.func.value, ast.Name)
+                and u(c.args[0]) in ((rest_name,) if c.func.attr == "append" else (f"{rest_name}.exceptions",)))
+                if rest_name and i in hreach] if rest_name else []
+            group_raises = []
+            if collects and len({u(c.func.value) for _i, c in collects}) == 1:  # type: ignore[attr-defined]
+                lname = u(collects[0][1].func.value)  # type: ignore[attr-defined]
+                for n_ in cfg.nodes:
+                    if isinstance(n_.ast, ast.Raise) and isinstance(n_.ast.exc, ast.Call) and callee_tail(n_.ast.exc) == "BaseExceptionGroup" \
+                            and len(n_.ast.exc.args) == 2 and u(n_.ast.exc.args[1]) == lname:
+                        group_raises.append(n_.id)
+                in_handler = [x for x in raises if x not in group_raises]
+                if group_raises and not in_handler:
+                    cn_ = [i for i, _c in collects]
+                    after = [m for m, lab in cfg.succ[sp] if normal_edge(sp, m, lab)]
+                    some_v = join(is_none(rest_name, False), truthy(rest_name, True))
+                    none_v = join(is_none(rest_name, True), truthy(rest_name, False))
+                    e_some = fl.consistent(some_v, normal=True)
+                    e_none = fl.consistent(none_v, normal=True)
+                    dropped = [cfg.path(a, [cfg.exit] + waits, avoid=cn_, edge_ok=e_some) for a in after]
+                    spurious = [cfg.path(a, cn_, edge_ok=e_none) for a in after]
+                    filled = fl.consistent(nonempty(lname, True), normal=True)
+                    empty = fl.consistent(nonempty(lname, False), normal=True)
+                    lost = [cfg.path(c_, [cfg.exit], avoid=group_raises, edge_ok=filled, include_src=False) for c_ in cn_]
+                    raised_empty = cfg.path(cfg.entry, group_raises, avoid=cn_, edge_ok=empty)
+                    ok = bool(after) and not any(dropped) and not any(spurious) and not any(lost) and raised_empty is None
+                    detail = ("the remainders collected over the rounds are not raised as one group exactly when there are any "
+                              "(errors swallowed, cancellations surfaced, or a group raised without errors)")
+                    raises = []
             if rest_name and raises:
                 good_raise = all(fl.text(x, cfg.nodes[x].ast.exc) == rest_name for x in raises)  # type: ignore[union-attr]
                 rebound = [x for x in hreach if x != sp
@@ -829,6 +860,19 @@ def check_stop(run: Run, prog: Program) -> None:
                     detail = "stop() re-raises something other than the non-cancellation remainder"
     run.check(ok, "C10.STOP", fl.qual, "except BaseExceptionGroup: split(CancelledError); raise rest",
               detail, node=st.node, file=st.file)
+    # tasks added while stopping ("extra tasks added at any time"): wait() only guarantees an empty task set when it
+    # returns normally; when it raises -- and after cancel() it practically always raises, the group of CancelledErrors
+    # -- tasks registered meanwhile (e.g. by a task's own cancellation clean-up) are still in self._tasks, neither
+    # cancelled nor awaited.  stop() may therefore leave through the handler only after looking at the task set again.
+    if len(grp) == 1 and waits:
+        probes = [t for t in fl.tests() if fl.decides(t, nonempty(TASKS, True)) and t in cfg.reachable([grp[0].id])]
+        late = cfg.path(grp[0].id, [cfg.exit], avoid=probes)
+        run.check(late is None, "C10.STOP", fl.qual, "stop() leaves after a failed wait() without examining the task set again",
+                  "when `await self.wait()` raises (the usual case after cancel(): the group of CancelledErrors), stop() filters "
+                  "the group and returns / re-raises without looking at self._tasks again: a task that was added while the "
+                  "service was being stopped (for instance by the cancellation clean-up of one of its tasks) is neither "
+                  "cancelled nor awaited -- stop() has returned, is_running is still True", node=st.node, file=st.file,
+                  path=fl.fmt(late), instance=f"{fl.qual}: after a failed wait() the task set is examined again")
 
     # wait()
     fl = _flow(run, prog, prog.func(f"{BGS}.wait"))
